@@ -653,6 +653,7 @@ func c11RunWitnesses(ctx *Ctx, fns []c11Fn) {
 			c11One(ctx, f, w.args())
 		}
 	}
+	c11AllocCorrespondence(ctx)
 	for fn, ss := range c11NumSites {
 		for _, s := range ss {
 			ctx.Tag(fmt.Sprintf("numsite:%s:arg%d:%s <- %s", fn, s.arg, s.role, s.src))
